@@ -76,6 +76,26 @@ def run(ctx):
             except Exception:
                 py = 'none'
             ent_cases.append(('bip39_ent %s' % idx, py, True))
+    # language detection and sanitising: the language whose list holds the most words of the sentence (when there is exactly one such
+    # language) and the NFKD-normalised sentence
+    sets = {lg: set(ref[lg]) for lg in langs}
+    for lang in langs:
+        for words, e in rng.sample(sentences.get(lang, []), min(len(sentences.get(lang, [])), 6 if T else 3)):
+            nw = unicodedata.normalize('NFKD', words).split(' ')
+            counts = {lg: sum(1 for w_ in nw if w_ in sets[lg]) for lg in langs}
+            best = max(counts.values())
+            winners = [lg for lg in langs if counts[lg] == best]
+            ctx.evals += 1
+            ctx.count('detect_language' + ('' if len(winners) == 1 else ':ambiguous-sentence'))
+            try:
+                det = Mnemonic.detect_language(words)
+                san = Mnemonic(lang).sanitize_mnemonic(words)
+            except BaseException as ex:
+                det, san = 'raise:' + type(ex).__name__, None
+            if (len(winners) == 1 and det != lang) or det not in winners:
+                ctx.violation('the language of a generated sentence is not detected', {'op': 'detect ' + lang, 'sentence': words, 'observed': det, 'expected': winners})
+            elif san != ' '.join(nw):
+                ctx.violation('sanitize_mnemonic does not return the NFKD-normalised sentence', {'op': 'sanitize ' + lang, 'sentence': words, 'observed': san})
     ctx.compare(idx_cases, 'to_mnemonic')
     ctx.compare(ent_cases, 'to_entropy')
 
